@@ -111,15 +111,18 @@ func (s *System) ActorOf(actor vivid.Actor, options ...vivid.ActorOption) (vivid
 func (s *System) Start() error {
 	var stateError = func(s *System) error {
 		s.statusLock.Lock()
-		defer s.statusLock.Unlock()
 		switch s.status {
 		case start:
+			s.statusLock.Unlock()
 			s.Logger().Warn("actor system already started")
 			return vivid.ErrorActorSystemAlreadyStarted
 		case stop:
+			s.statusLock.Unlock()
 			s.Logger().Warn("actor system already stopped")
 			return vivid.ErrorActorSystemAlreadyStopped
 		default:
+			// 启动完成前继续持有状态锁：并发的 Stop 必须等到根 Actor 创建完成，
+			// 否则它会在 Context 仍为空时跳过终止流程，留下一个状态为 stop 却仍在运行的系统
 			s.status = start
 			return nil
 		}
@@ -136,6 +139,7 @@ func (s *System) Start() error {
 		Append(systemChains.initializeRemoting(s)).
 		Append(systemChains.initializeCluster(s)).
 		Run()
+	s.statusLock.Unlock()
 
 	if startErr != nil {
 		s.Logger().Error("actor system start failed", log.Any("err", startErr))
